@@ -247,7 +247,7 @@ def W1_mv_mutators(ctx):
                 for p in f.paths(budget=20000):
                     for e in p.events:
                         if e.kind == 'call' and e.bb == bl['bb'] and e.d['args'] and mentions_field(e.d['args'][0], 'mv_memory'):
-                            muts[b['fn'].split('::')[-1]].add(norm_callee(t['callee']).split('::')[-1])
+                            [muts[o].add(norm_callee(t['callee']).split('::')[-1]) for o in facts.owners(b['fn'])]
                             break
     expected = {'publish_value': {'entry'}, 'execute_task': {'get_mut'}, 'mark_mv_estimate': {'get_mut'}}
     ctx.ob('W1', 'model::MVMemory', 'who-mutates-mv-memory', dict(muts) == expected, f'{ {k: sorted(v) for k, v in muts.items()} }',
